@@ -3057,7 +3057,7 @@ fn generate_compile(rng: &mut Rng, hist: &mut Hist) -> String {
             names[rng.below(names.len() as u64) as usize].0.clone()
         } else if rng.chance(1, 12) {
             hist.add("compile:redefines-built-in");
-            "RSSL_TARGET_HLSL".to_string()
+            rng.pick(&["RSSL_TARGET_HLSL", "RSSL_TARGET_HLSL", "RSSL_TARGET_MSL", "__HLSL_VERSION"]).to_string()
         } else {
             format!("K{}", i)
         };
@@ -3070,7 +3070,11 @@ fn generate_compile(rng: &mut Rng, hist: &mut Hist) -> String {
                 (1 + rng.below(9)).to_string()
             }
         };
-        let body = if fnlike {
+        let body = if !fnlike && rng.chance(1, 10) {
+            // wave 5: a later macro named in the value (looked up when the value is used, not when it is defined)
+            hist.add("compile:forward-reference");
+            format!("(K{} + {})", i + 1, 1 + rng.below(5))
+        } else if fnlike {
             format!("((X) {} {})", rng.pick(&["+", "*", "-"]), operand(rng, &names))
         } else if rng.chance(1, 3) {
             (1 + rng.below(20)).to_string()
